@@ -3,6 +3,8 @@ import os, re, json, time
 import engine
 
 HARNESSES = {
+    'ut_map': ['do_find', 'do_erase', 'do_update', 'do_insert', 'do_insert_update'],
+    'ut_set': ['do_find', 'do_erase', 'do_update', 'do_insert', 'do_insert_update'],
     'tlru_cache': ['do_erase', 'do_prune', 'do_find', 'do_update', 'do_insert', 'do_insert_update', 'find', 'erase', 'insert'],
     'lfu_cache': ['do_erase', 'do_prune', 'do_find', 'do_update', 'do_insert', 'do_insert_update', 'erase', 'insert', 'find_with_use_count'],
     'fifo_cache': ['do_find', 'do_update', 'find'],
@@ -21,7 +23,10 @@ EXPERIMENTAL = {'fifo_cache': ['do_erase', 'do_insert', 'do_insert_update', 'era
 
 
 # containers whose route U units are registered in the property checks (every unit validated on the unchanged tree)
-REGISTERED = ('lru_cache', 'mru_cache', 'rr_cache', 'fifo_cache', 'lfu_cache')
+REGISTERED = ('lru_cache', 'mru_cache', 'rr_cache', 'fifo_cache', 'lfu_cache', 'ut_map', 'ut_set')
+
+
+DYNAMIC = ('ut_map', 'ut_set')  # containers whose list grows and shrinks: cstl_ud/cstl_list.h shadows cstl_u/cstl_list.h
 
 
 class UUnit:
@@ -34,7 +39,7 @@ class UUnit:
         self.lockcov = False
 
     def key(self):
-        fs = engine.files_under(os.path.join(engine.VERIF, 'cstl_u')) + [os.path.join(engine.VERIF, 'contracts_u', self.container + x) for x in ('_u.h', '_u.c')] + [os.path.join(engine.VERIF, 'cstl', 'cstl.h')]
+        fs = engine.files_under(os.path.join(engine.VERIF, 'cstl_u')) + (engine.files_under(os.path.join(engine.VERIF, 'cstl_ud')) if self.container in DYNAMIC else []) + [os.path.join(engine.VERIF, 'contracts_u', self.container + x) for x in ('_u.h', '_u.c')] + [os.path.join(engine.VERIF, 'cstl', 'cstl.h')]
         return engine.sha(self.id, engine.hash_files(fs), engine.file_bytes(os.path.join(self.gen, self.container + '.c')), engine.file_bytes(os.path.join(self.gen, self.container + '.h')),
                           engine.file_bytes(os.path.join(self.gen, 'gen_common.h')), 'u-v3')
 
@@ -58,7 +63,7 @@ def run_u(unit, want_trace=False):
     os.makedirs(udir, exist_ok=True)
     res = dict(unit=unit.id, container=unit.container, function=unit.fn, maxcap=0, key=key, cached=False, replaced=[], route='U')
     gb = os.path.join(udir, 'u.%d.gb' % os.getpid())
-    inc = ['-I' + os.path.join(engine.VERIF, 'cstl_u'), '-I' + os.path.join(engine.VERIF, 'cstl'), '-I' + os.path.join(engine.VERIF, 'contracts_u'), '-I' + unit.gen]
+    inc = (['-I' + os.path.join(engine.VERIF, 'cstl_ud')] if unit.container in DYNAMIC else []) + ['-I' + os.path.join(engine.VERIF, 'cstl_u'), '-I' + os.path.join(engine.VERIF, 'cstl'), '-I' + os.path.join(engine.VERIF, 'contracts_u'), '-I' + unit.gen]
     cmd1 = ['goto-cc', '-DCSTL_CBMC'] + inc + ['--function', 'h_' + unit.short, os.path.join(engine.VERIF, 'contracts_u', unit.container + '_u.c'), '-o', gb]
     rc, out, err, _ = engine.run(cmd1, timeout=120)
     if rc != 0:
